@@ -188,7 +188,7 @@ def check_global(ctx: Ctx):
     # R13.3: metric not requested -> not computed
     runs = run_constructor(ctx, metrics, ech, [], 0, {})
     for out, o, pred, ref, it in runs:
-        ctx.decide("R13.3", init, init.node, f"{init.qual}:unrequested", "without requested global metrics no kernel is evaluated and nothing is split", not it.root.kernel_calls and not out.decisions and all(o.attrs.get(f"global_bin_{m.attrs['_name_'].lower()}") is None for m in metrics), {"kernel_calls": len(it.root.kernel_calls)})
+        ctx.decide("R13.3", init, init.node, f"{init.qual}:unrequested", "without requested global metrics no kernel is evaluated and no global value is set", not it.root.kernel_calls and all(o.attrs.get(f"global_bin_{m.attrs['_name_'].lower()}") is None for m in metrics), {"kernel_calls": len(it.root.kernel_calls)})
     # direct call of _calc_global_bin_metric with do_binarize=True
     check_direct(ctx, metrics, ech, calc)
     if rows < 4 * len(metrics):
